@@ -3,8 +3,8 @@ From Coq Require Import ZArith NArith List Bool String.
 From Valida Require Import Py Lang Defs Cond Dsl Check DocSem PathSpec Path Cast Str SpecDefs RuleDefs RuleSpec RuleTerms Rule Spec SpecIO Eq SpecSpell Inst Run RunRule RunSpec.
 Import ListNotations.
 Local Open Scope string_scope.
-From Valida Require Import C17Defs.
-From Valida.Proofs Require Import C17Proof.
+From Valida Require Import C17Defs NestedArgs.
+From Valida.Proofs Require Import C17Proof C17NestedProof.
 
 (* Replacing every data-path argument of a rule's condition by what the path selects in the document
    (None if absent, [] for a non-concrete path, datum / multiplicity modifiers applied) changes
@@ -45,3 +45,48 @@ Theorem C17_resolution_caught : forall e,
   catches (t_caught_call T) e = true.
 Proof. exact C17_resolution_errors_caught. Qed.
 Print Assumptions C17_resolution_caught.
+
+(* ---- data paths INSIDE list / tuple / mapping arguments (NestedArgs.v: _resolve_data_paths looks exactly one level down) ----
+   [narg]: an argument is a literal or a path (NA), a list / tuple whose items are literals or paths (NItems), or a mapping whose
+   values are literals or paths (NDict).  [rule_test_n] is Rule.test with such arguments; on rules without nested paths it IS
+   [rule_test] (C17_nested_extends), so everything proved about rule_test carries over. *)
+Theorem C17_nested_extends : forall (r : rule) doc copy,
+  rule_test_n (emb_rule r) doc copy = rule_test T r doc copy.
+Proof. exact rule_test_emb. Qed.
+
+(* the nested resolver: items left to right, the container kind and the mapping keys kept *)
+Theorem C17_nested_resolution : forall src n,
+  resolve_n src n = let* vs := mapM (resolve1 T src) (nitems n) in Ok (pack_n n vs).
+Proof. exact resolve_n_mapM. Qed.
+
+(* replacing every path, nested ones included, by what it selects in the document changes nothing *)
+Theorem C17_nested_subst : forall doc (c : cond narg) d,
+  filter_tree T (resolve_n (Some doc)) (subst_cond_n doc c) d = filter_tree T (resolve_n (Some doc)) c d.
+Proof. exact C17N_subst_filter. Qed.
+
+Theorem C17_nested_rule_verdict : forall r doc, rn_cast r = [] ->
+  rule_test_n (subst_rule_n doc r) doc None = rule_test_n r doc None.
+Proof. exact C17N_subst_rule_test_nocast. Qed.
+
+Theorem C17_nested_rule_verdict_with_casts : forall r doc copy sel cp1,
+  rn_cast r <> [] ->
+  selection T (rn_path r) doc = Ok sel ->
+  cast_loop (rn_cast r) sel (match copy with Some c => c | None => doc end) = Ok cp1 ->
+  rule_test_n (subst_rule_n cp1 r) doc copy = rule_test_n r doc copy.
+Proof. exact C17N_subst_rule_test_cast. Qed.
+
+(* a nested path that cannot be resolved on this document fails the item instead of aborting *)
+Theorem C17_nested_unresolvable_fails : forall doc (l : leaf narg) datum v n a e,
+  pre_apply (l_pre l) datum = Ok v ->
+  In n (l_args l ++ map snd (l_kwargs l)) ->
+  In a (nitems n) ->
+  resolve1 T (Some doc) a = Err e ->
+  (forall n' a' e', In n' (l_args l ++ map snd (l_kwargs l)) -> In a' (nitems n') ->
+                    resolve1 T (Some doc) a' = Err e' ->
+                    In e' [TypeError; AttributeError; ValueError; IndexError; KeyError; ZeroDivisionError; OverflowError]) ->
+  eval_item T (resolve_n (Some doc)) l datum = Ok (false, true, false).
+Proof. exact C17N_unresolvable_fails_listed. Qed.
+
+Print Assumptions C17_nested_extends. Print Assumptions C17_nested_resolution. Print Assumptions C17_nested_subst.
+Print Assumptions C17_nested_rule_verdict. Print Assumptions C17_nested_rule_verdict_with_casts.
+Print Assumptions C17_nested_unresolvable_fails.
